@@ -64,8 +64,26 @@ func ruleQRByteMode(c *Ctx) {
 	var sites []DeepSite
 	for _, s := range c.P.deepCallsTo(fn, addByte) {
 		// (pad bytes are constants; the content bytes are element reads)
-		switch s.Ins.(*ssa.Call).Common().Args[1].(type) {
+		switch x := s.Ins.(*ssa.Call).Common().Args[1].(type) {
 		case *ssa.UnOp, *ssa.Index, *ssa.Lookup, *ssa.Extract:
+			// (the pad codewords may also sit in a package-level table)
+			var base ssa.Value
+			switch y := x.(type) {
+			case *ssa.UnOp:
+				if ia, ok := y.X.(*ssa.IndexAddr); ok {
+					base = ia.X
+				}
+			case *ssa.Index:
+				base = y.X
+			case *ssa.Lookup:
+				base = y.X
+			}
+			if ld, ok := base.(*ssa.UnOp); ok {
+				base = ld.X
+			}
+			if _, isG := base.(*ssa.Global); isG {
+				continue
+			}
 			sites = append(sites, s)
 		}
 	}
